@@ -249,16 +249,20 @@ def bsrch1_lower_bound_searches(P, R, L, rule="BSRCH-1"):
         # loop condition lo < hi
         is_lo = lambda os_=None, op=None: False
         cond = []
+        stay = []
         for c in comparisons(b):
             a, bb_ = _plain_local(c.lhs) if c.lhs.get("k") != "const" else None, _plain_local(c.rhs) if c.rhs.get("k") != "const" else None
             if a is None or bb_ is None:
                 continue
             ra, rb = _copy_root(b, a), _copy_root(b, bb_)
-            if (ra, rb) == (lo, hi) and c.op == "lt":
+            # `lo < hi` holds on the true edge of `lo < hi` / `hi > lo` and on the FALSE edge of `lo >= hi` / `hi <= lo`
+            # (`loop { if lo >= hi { break; } .. }`)
+            if ((ra, rb) == (lo, hi) and c.op == "lt") or ((ra, rb) == (hi, lo) and c.op == "gt"):
                 cond.append(c)
-            elif (ra, rb) == (hi, lo) and c.op == "gt":
+                stay += [(c.bb, t) for t in c.true_t]
+            elif ((ra, rb) == (lo, hi) and c.op == "ge") or ((ra, rb) == (hi, lo) and c.op == "le"):
                 cond.append(c)
-        stay = [(c.bb, t) for c in cond for t in c.true_t]
+                stay += [(c.bb, t) for t in c.false_t]
         R.check(rule, fn + "|loop-condition", bool(cond) and b.must_pass(mid_bb, through_edges=stay), where(b),
                 "the probe is computed only on the edge `lo < hi`", "conditions %d" % len(cond))
         # the element probed and the decisive comparison
